@@ -22,6 +22,26 @@ func init() {
 		"strings.Contains":   inContains,
 		"strings.Index":      inIndex,
 		"strings.Join":       inJoin,
+		"strings.Fields": func(m *Machine, fn *ssa.Function, a []Value) Value {
+			s, ok := forceLazy(a[0]).(string)
+			if !ok {
+				unsupported("strings.Fields on a symbolic string")
+			}
+			var out []Value
+			for _, f := range strings.Fields(s) {
+				out = append(out, f)
+			}
+			return m.stringSlice(out)
+		},
+		"strings.ReplaceAll": func(m *Machine, fn *ssa.Function, a []Value) Value {
+			s, ok1 := forceLazy(a[0]).(string)
+			o, ok2 := forceLazy(a[1]).(string)
+			n, ok3 := forceLazy(a[2]).(string)
+			if !ok1 || !ok2 || !ok3 {
+				unsupported("strings.ReplaceAll on symbolic strings")
+			}
+			return strings.ReplaceAll(s, o, n)
+		},
 		"strings.LastIndex": func(m *Machine, fn *ssa.Function, a []Value) Value {
 			s, ok1 := forceLazy(a[0]).(string)
 			sub, ok2 := forceLazy(a[1]).(string)
@@ -111,6 +131,28 @@ func init() {
 			return Tuple{s, Iface{}}
 		},
 		"github.com/gontainer/gontainer-helpers/v3/graph.New": inGraphNew,
+		"github.com/gontainer/gontainer-helpers/v3/exporter.CastToString": func(m *Machine, fn *ssa.Function, a []Value) Value {
+			// documented: strings as they are, numbers without type, booleans, nil -> "nil"
+			v := a[0].(Iface)
+			v.V = forceLazy(v.V)
+			if v.T == nil {
+				return Tuple{"nil", Iface{}}
+			}
+			if b, ok := v.T.(*types.Basic); ok {
+				switch {
+				case b.Info()&types.IsString != 0:
+					return Tuple{v.V, Iface{}}
+				case b.Info()&types.IsInteger != 0:
+					return Tuple{fromTerm(FromInt(toTerm(v.V))), Iface{}}
+				case b.Info()&types.IsBoolean != 0:
+					return Tuple{fromTerm(Ite(toTerm(v.V), StrT("true"), StrT("false"))), Iface{}}
+				}
+			}
+			if typeIsString(v.T) {
+				return Tuple{v.V, Iface{}}
+			}
+			return Tuple{"", m.newError("type " + typeName(v) + " is not supported")}
+		},
 	} {
 		intrinsics[k] = v
 	}
@@ -261,6 +303,10 @@ func (m *Machine) fmtValue(op Iface) *Term {
 		return StrT("<nil>")
 	}
 	switch v := op.V.(type) {
+	case *SymFloat:
+		return v.Text
+	case float64:
+		return StrT(strconv.FormatFloat(v, 'g', -1, 64))
 	case string:
 		return StrT(v)
 	case int64:
